@@ -4,6 +4,7 @@
    fact and is pinned in C08 (withdraw_fees, withdraw_fees_permissionless, withdraw_insurance). *)
 Require Import Base Constants Fixed Curve Bank BankOps Risk TransferFee Handlers FixedLemmas BankLemmas HandlerLemmas TransferFeeLemmas.
 Require Import Panic AnchorTypes AnchorSem Gate AccountsTable HandlerFacts Spec AnchorSemLemmas AuthLemmas.
+Require Import Payout PayoutLemmas.
 Local Open Scope Z_scope.
 
 (* collecting bank fees: each bucket (insurance, group, program — in that order) gives up exactly the
@@ -85,9 +86,81 @@ Example C19_nonvacuous :
   | Err _ => [] end = [(0, 2, 4, 0, 1)].
 Proof. vm_compute. reflexivity. Qed.
 
+(* ------------------------------------------------------------------------------------------------------------------
+   Instruction level (model/Payout.v: the four fee / insurance instructions and the four emissions instructions, with
+   their account constraints and token transfers).  'apart from bankruptcy cover, fee and insurance vaults can be drawn
+   down only by the group admin or, for fees, by anyone into the destination the admin fixed' *)
+Theorem C19_fee_vault_drawn_only_by_admin_or_to_fixed_destination : forall w signer op w',
+  pay_step w signer op = Ok w' -> y_fee_vault w' < y_fee_vault w ->
+  exists dst paid t, paid = y_fee_vault w - y_fee_vault w' /\ find_tok (y_toks w) dst = Some t /\ tk_mint t = MINT_BANK /\
+    y_toks w' = credit (y_toks w) dst paid /\
+    ((signer = y_admin w /\ exists a, op = YWithdrawFees dst a) \/
+     (dst = y_fee_dest w /\ exists a, op = YWithdrawFeesPermissionless dst a)).
+Proof. exact fee_vault_drawdown. Qed.
+
+Theorem C19_insurance_vault_drawn_only_by_admin : forall w signer op w',
+  pay_step w signer op = Ok w' -> y_ins_vault w' < y_ins_vault w ->
+  signer = y_admin w /\ exists dst a t, op = YWithdrawInsurance dst a /\ a = y_ins_vault w - y_ins_vault w' /\
+    find_tok (y_toks w) dst = Some t /\ y_toks w' = credit (y_toks w) dst a.
+Proof. exact ins_vault_drawdown. Qed.
+
+(* the fixed fee destination is changed only by the group admin (to a token account of the bank's mint); the wallet for
+   permissionless emission payouts only by the account authority, on an account that is neither disabled nor frozen *)
+Theorem C19_destinations_changed_only_by_their_owner : forall w signer op w',
+  pay_step w signer op = Ok w' ->
+  (y_fee_dest w' <> y_fee_dest w -> signer = y_admin w /\ op = YUpdateFeesDest (y_fee_dest w') /\
+     exists t, find_tok (y_toks w) (y_fee_dest w') = Some t /\ tk_mint t = MINT_BANK) /\
+  (y_em_wallet w' <> y_em_wallet w -> signer = y_auth w /\ op = YUpdateEmissionsDest (y_em_wallet w') /\
+     aflag w ACCOUNT_DISABLED = false /\ aflag w ACCOUNT_FROZEN = false).
+Proof. exact destinations_changed_by_owner. Qed.
+
+(* 'emission rewards ... can be paid only to the account authority's chosen destination': the emissions vault pays the
+   whole-token part of the position's credit, all of it into ONE token account: the one an authorized signer names (the
+   authority; the group admin only while the account is frozen), or - triggered by anybody - the associated token account
+   of the wallet the authority registered (never the unset default); never for a disabled account *)
+Theorem C19_emissions_paid_only_to_chosen_destination : forall w signer op w',
+  pay_step w signer op = Ok w' -> y_em_vault w' < y_em_vault w ->
+  exists dst n t, n = y_em_vault w - y_em_vault w' /\ find_tok (y_toks w) dst = Some t /\ tk_mint t = MINT_EM /\
+    y_toks w' = credit (y_toks w) dst n /\
+    aflag w ACCOUNT_DISABLED = false /\
+    settle_emissions (y_bank w) (y_bal w) (y_now w) = Ok (y_bank w', y_bal w', n) /\
+    ((op = YWithdrawEmissions dst /\ authorized w signer = true) \/
+     (op = YWithdrawEmissionsPermissionless dst /\ y_em_wallet w <> 0 /\ dst = ata (y_em_wallet w) /\ aflag w ACCOUNT_FROZEN = false)).
+Proof. exact em_vault_drawdown. Qed.
+
+(* every reachable state (any history of these instructions by any signers, failed instructions rolled back): token
+   accounts keep distinct keys, no vault goes negative, the EMISSIONS VAULT COVERS the funded remaining amount plus the
+   position's unpaid credit ('emissions vault vs remaining + sum of outstanding'), and per mint no token is created or
+   destroyed (vaults + token accounts are constant) *)
+Theorem C19_payout_histories_keep_vaults_covered : forall ops w, pay_inv w ->
+  pay_inv (pay_run w ops) /\ supply_bank (pay_run w ops) = supply_bank w /\ supply_em (pay_run w ops) = supply_em w /\
+  y_admin (pay_run w ops) = y_admin w /\ y_auth (pay_run w ops) = y_auth w.
+Proof. exact pay_run_inv. Qed.
+
+Definition ex_payw : payw :=
+  mkPayW 1 2 0 0 0 50 60 1000
+    [mkTok 10 MINT_BANK 0; mkTok 11 MINT_BANK 0; mkTok 1001 MINT_EM 0; mkTok 20 MINT_EM 0]
+    (mkBank ONE ONE (1000000000 * ONE) 0 0 0 0 1700000000 U64_MAX U64_MAX 0 6 2 1000000 (1000 * ONE) 1 0 1 (mkIR 0 0 0 0 0 0 0 0 0 [] 1))
+    (mkBal true 1 0 (1000000000 * ONE) 0 0 1700000000) 1700000000 1700000000.
+(* a year passes; a stranger cannot take fees, the admin fixes a destination, then anybody can flush the fee vault into it;
+   the authority registers wallet 1 and anybody pays the accrued emissions into that wallet's token account *)
+Example C19_payout_nonvacuous :
+  let w := pay_run ex_payw [(0, YTick 31536000); (3, YWithdrawFees 11 5); (1, YUpdateFeesDest 10); (3, YWithdrawFeesPermissionless 10 70);
+                            (3, YWithdrawEmissionsPermissionless 1001); (2, YUpdateEmissionsDest 1); (3, YWithdrawEmissionsPermissionless 1001);
+                            (3, YWithdrawEmissions 20); (1, YWithdrawInsurance 11 60)] in
+  (y_fee_vault w, y_ins_vault w, y_em_vault w, map tk_amt (y_toks w)) = (0, 0, 0, [50; 60; 1000; 0]).
+Proof. vm_compute. reflexivity. Qed.
+Example C19_payout_inv_nonvacuous : pay_inv ex_payw.
+Proof. unfold pay_inv, pay_wf, em_covered. cbn. repeat split; try lia. repeat constructor; cbn; intuition lia. Qed.
+
 Print Assumptions C19_collect_fees_exact.
 Print Assumptions C19_emissions_conserved_and_capped.
 Print Assumptions C19_settle_pays_whole_tokens.
 Print Assumptions C19_emissions_withdrawn_only_by_authority.
 Print Assumptions C19_emissions_destination_set_only_by_authority.
 Print Assumptions C19_emissions_funding_covers_recorded.
+Print Assumptions C19_fee_vault_drawn_only_by_admin_or_to_fixed_destination.
+Print Assumptions C19_insurance_vault_drawn_only_by_admin.
+Print Assumptions C19_destinations_changed_only_by_their_owner.
+Print Assumptions C19_emissions_paid_only_to_chosen_destination.
+Print Assumptions C19_payout_histories_keep_vaults_covered.
